@@ -69,7 +69,7 @@ func c07(c *ctx) {
 		var g *gram.Grammar
 		alpha := []rune("abcdz\né😀")
 		switch i % 4 {
-		case 0:
+		case 0, 2:
 			g = gram.ChoiceHeavy(r)
 			alpha = append([]rune("abcdefgz"), g.Runes()...)
 		case 1:
